@@ -164,8 +164,13 @@ int sim_unlink(const char *path)
 static int exact_heap;
 void sim_mmap_exact_heap(int on) { exact_heap = on; }
 
+/* fault: the n-th mmap call from now fails with ENOMEM (0 = none); one shot */
+static int mmap_fail_in;
+void sim_mmap_fail_in(int n) { mmap_fail_in = n; }
+
 void *sim_mmap(void *addr, size_t len, int prot, int flags, int fd, off_t off)
 {
+	if (mmap_fail_in > 0 && --mmap_fail_in == 0) { INC(mmap_failures); errno = ENOMEM; return MAP_FAILED; }
 	if (!exact_heap) {
 		void *p = mmap(addr, len, prot, flags, fd, off);
 		if (p != MAP_FAILED) { INC(mmaps); INC(live_maps); }
